@@ -118,7 +118,10 @@ def work(item):
     res = Result(f"{kind}|{p['label']}")
     from orquestra.quantum.distributions import _measurement_outcome_distribution as MD, mmd as MMD, clipped_negative_log_likelihood as CN, jensen_shannon_divergence as JS
 
-    res.fn(MD.MeasurementOutcomeDistribution.__init__, MD.MeasurementOutcomeDistribution.subdistribution, MD.preprocess_distibution_dict, MD.is_measurement_outcome_distribution, MD.is_normalized, MD.normalize_measurement_outcome_distribution, MMD.compute_mmd, MMD.compute_rbf_kernel, MMD.compute_multi_rbf_kernel, CN.compute_clipped_negative_log_likelihood, JS.compute_jensen_shannon_divergence)
+    try:  # evidence only: a renamed private helper must not break the check
+        res.fn(MD.MeasurementOutcomeDistribution.__init__, MD.MeasurementOutcomeDistribution.subdistribution, MD.preprocess_distibution_dict, MD.is_measurement_outcome_distribution, MD.is_normalized, MD.normalize_measurement_outcome_distribution, MMD.compute_mmd, MMD.compute_rbf_kernel, MMD.compute_multi_rbf_kernel, CN.compute_clipped_negative_log_likelihood, JS.compute_jensen_shannon_divergence)
+    except AttributeError:
+        pass
     res.d["cuts"] += [
         "math proxy in the distribution modules: isclose as exact-real predicate, log as uninterpreted ln with instantiated axioms ln(x) <= x-1, ln(xy)=ln x+ln y",
         "numpy proxy in mmd.py: object arrays; exp(-k/(2 sigma)) -> q^k with q in (0,1)",
